@@ -39,6 +39,46 @@ claim("C15",
   "Typestate analysis over SSA with function summaries (greatest fixpoint over the parser's call graph): each of the ~174 token-kind decisions of parser.go must look at an index that is a result of consumeIgnoreableTokens, the function's own parameter (obligation moved to every call site) or an index whose callee summary is `skipped`; sibling comparison of the kinds dropped by the expression-token filter and the kinds skipped by the skipper; keyword switch tagged by strings.ToLower of the whole lexeme with lower-case spellings. A raw decision is exactly a gap where a blank or comment changes the parse, for all programs at once.",
   "Three frozen exceptions need a path-sensitive summary (index returned by parse_process_statements). Does not decide the lexer's comment state machine nor AST equality.",
   "interprocedural typestate (skipped/raw index) on SSA + sibling table comparison", "DESIGN.md section 5 C15")
+claim("C01",
+  "The equivalence with a reference matcher is NOT decided by static analysis. Decided are the structural mechanisms the property's anchors name: dispatch completeness (every concrete type converted to a pipeline interface, collected from SSA MakeInterface sites, has a type-switch case of the same pointer-ness; character-class enum switches exhaustive), relocation completeness (offset-taint finds the pc-carrying instruction fields; adjust must shift each), and the scan discipline of findMatches (next start = end of the successful non-empty attempt or one byte further; fresh VM state per attempt).",
+  "Narrow: instruction semantics, alternative priority, the greedy/lazy loop protocol and the meaning of jump targets are value-level and outside this technique family; the seeded loop-protocol change C01b is documented as not detected.",
+  "type-switch/enum completeness + field-sensitive taint + SSA leaf classification of loop-carried variables", "DESIGN.md section 5 C01")
+claim("C02",
+  "Static snapshot-isolation analysis: the methods that write through their receiver and the fields they are invoked on are computed for package engine; every such component must be deeply fresh in the value returned by SearchEngineState.Copy (fresh-allocation analysis through callees, composite literals and stack copies); binding provenance of STARTVAR/ENDVAR/MATCHVAR by SSA expression comparison and dominance; handlers never mutate their incoming state; every attempt starts from CreateState with fresh reference fields.",
+  "Scoped exclusions: snapshots reachable only through `backtrack` (LIFO argument stated, not checked) and the shared reader. Does not decide which of several bindings of one name wins.",
+  "SSA alias/freshness analysis + mutating-method fixpoint + dominance", "DESIGN.md section 5 C02")
+claim("C03",
+  "Static inductive skeleton: who-writes analysis of the text/offset/line/column fields (single writer CONSUME), SSA expression identity inside CONSUME (the appended string and the length added are the same READ result; line/column stores depend on it), field-by-field construction of the match record and of the initial state, and the scan discipline / push conditions of findMatches.",
+  "Does not decide that the reader returns the right bytes (C07), multi-byte column arithmetic, nor the arithmetic itself.",
+  "who-may-write + SSA expression comparison + dominance", "DESIGN.md section 5 C03")
+claim("C04",
+  "Non-interference analysis on the SSA of findMatches (data dependence and per-iteration control dependence through post-dominators): the scan position, line, column, match counter and the arguments of CreateState/MakeMatch do not depend on skip/take/last except through loop-exit branches; window predicates (push conditions, loop bound, Limit) compared structurally; the amount-clause table of parse_amount extracted from its returns and the token tests controlling them; identity of All/Skip/Take/Last through parser, generator and engine.",
+  "Close to complete for the property; trusts the queue implementation beyond `Limit pops from the front`.",
+  "non-interference (data + control dependence) on SSA + table extraction", "DESIGN.md section 5 C04")
+claim("C05",
+  "Static analysis of the replacement pipeline: with-item dispatch completeness, every store to the replacement text appends (SSA expression shape), match records are written only by MakeMatch, one replacer state per match initialised inside the loop from the current match, built-ins added to a deep copy of the variables, and the two outcomes of generateReplaceVariable / the guard of WRITEVAR by partial evaluation and control dependence.",
+  "Does not decide transform results (C11).",
+  "who-may-write + loop-structure analysis + partial evaluation", "DESIGN.md section 5 C05")
+claim("C06",
+  "Static analysis of searchReplace and the file layer: mode table (which constructor calls are control-dependent on which replace mode, order of load and truncating open), who-may-modify-the-file-system over the call graph (only WriterFromFile/RunFiles' rename; nothing reachable from searchFind), constant open flags, and cursor pairing of the splice loop by comparing the back-edge expressions of the two cursors with what the two WriteAt calls wrote.",
+  "Does not decide the arithmetic (that gaps and values tile the input) nor OS/MemoryStream semantics.",
+  "control-dependence table + call-graph effect analysis + SSA expression comparison", "DESIGN.md section 5 C06")
+claim("C07",
+  "The buffered-window arithmetic is NOT decided (value-level). Decided: no read in package files turns io.EOF into a panic (guard analysis), each Reader constructor's size equals the length of its contents (expression comparison), Reader.Read is always preceded by a Seek on the same reader, BufferedFile methods never use the OS file cursor.",
+  "Narrow by design; see DESIGN.md.",
+  "guard dominance + who-may-call + sibling consistency", "DESIGN.md section 5 C07")
+claim("C09",
+  "Static inventory of panic-capable constructs reachable from Run/RunFiles, each discharged by a named rule: explicit panics (type-switch/enum completeness, checker-subset-of-evaluator cells, frozen trusted table of VM invariants and OS failures), monotone typing in the flow-insensitive checker, tested divisors, bound test before instruction fetch, EOF-tolerant reads, guarded type assertions, tested results of the nil-returning stack API, reader lifetime (post-dominating Close, no escape, opener closes).",
+  "VM-invariant panics and OS failures are trusted (table printed in the evidence); index safety that depends on VM invariants is not decided. Two genuine defects are recorded as known findings (re-typed variables, division by zero).",
+  "panic inventory over the VTA call graph + guard dominance + table cross-check", "DESIGN.md section 5 C09")
+claim("C10",
+  "Termination itself is not decided. Decided: the zero-width guard dominates every further loop iteration and leads only to BACKTRACK+return; matchEndNotIn advances only on progress; a must-analysis (greatest fixpoint) shows every handler and MATCH* primitive moves the state on every returning path; the outer scan advances; loop identity uses id and call depth.",
+  "Weakened-but-present guards and the inner loops of MATCHWHOLELINE/WORD are not decided.",
+  "dominance / must-pass-through + must-dataflow over the CFG", "DESIGN.md section 5 C10")
+claim("C20",
+  "The star matcher's correctness is a string-algorithm property and is NOT decided. Decided: every path GetFileList adds itself is control-dependent on `not a directory` and on pathMatches, and every recursive call is made on the shrunk pattern.",
+  "Narrow by design: only `none extra / directories never listed / bounded recursion`.",
+  "control dependence + call-site shape", "DESIGN.md section 5 C20")
 for pid in ["C01","C02","C03","C04","C05","C06","C07","C08","C09","C10","C11","C12","C13","C14","C15","C16","C17","C18","C19","C20"]:
     if pid not in CLAIMED:
         NA[pid] = "check under construction in this session (rules designed in DESIGN.md section 5, not yet implemented in the checker); not claimed until its rules run"
